@@ -299,6 +299,11 @@ def op_get(w, res, uri, hist, has=False):
                     w.touch_recency(uri)
                 elif exc is None:
                     v = judge_new_object(w, res, t, uri, E["file"], what, hist)
+                    if w.cfg["moddir"]:
+                        # (the module file is rewritten whenever it is older than the source: keep the shadow in step)
+                        M = w.modules.get(uri)
+                        if M is None or M["mtime"] < F["mtime"]:
+                            w.modules[uri] = {"frm": (E["file"][0], uri, F["version"]), "mtime": now}
                     w.compiled_at[(E["file"][0], uri, F["version"])] = now
                     w.cache[uri] = {"obj": t, "file": E["file"], "version": v, "c": now}
                     w.touch_recency(uri)
